@@ -403,6 +403,17 @@ def gen_case(rng, shape):
     if rng.random() < 0.4:
         kw["fix_com"] = rng.random() < 0.5
         kw["fix_orientation"] = rng.random() < 0.5
+    if "fragments" not in kw and rng.random() < 0.4:
+        # an explicit, valid total charge and multiplicity (non-geometric fields that orientation must leave alone; through from_data
+        # they are passed as options of the call every other time)
+        import qcelemental as qcel
+
+        ne = sum(int(qcel.periodictable.to_Z(sy)) for sy, rl in zip(symbols, kw.get("real", [True] * n)) if rl)
+        c = rng.choice([0, 0, 1, -1, 2])
+        if ne - c >= 0:
+            lo = 1 + (ne - c) % 2
+            kw["molecular_charge"] = float(c)
+            kw["molecular_multiplicity"] = lo + (2 if (rng.random() < 0.3 and ne - c >= lo + 1) else 0)
     q = [rng.randint(-6, 6) for _ in range(4)]
     if not any(q):
         q = [1, 2, -1, 3]
@@ -481,8 +492,13 @@ def orient_call(path, kw, noise=None):
                     mol = Molecule(orient=True, **extra, **base.dict())
         elif path == "from_data":
             gin = np.array(kw["geometry"], dtype=float).reshape(-1, 3)
+            d = dict(kw)
+            # the charge / multiplicity of the record given as keyword OPTIONS of from_data instead of dictionary entries (every other
+            # call; decided by the geometry so that a replay makes the same choice): options must combine, orient=True included
+            opt = {k: d.pop(k) for k in ("molecular_charge", "molecular_multiplicity", "fragment_charges", "fragment_multiplicities")
+                   if k in d and int(abs(float(gin.ravel()[0])) * 1e6) % 2 == 0}
             with EighTap() as tap:
-                mol = Molecule.from_data(dict(kw), orient=True, **extra)
+                mol = Molecule.from_data(d, orient=True, **extra, **opt)
         else:
             gin = np.array(kw["geometry"], dtype=float).reshape(-1, 3)
             with EighTap() as tap:
